@@ -51,6 +51,23 @@ type Ob struct {
 	Detail     string  `json:"detail,omitempty"`
 	Nontrivial bool    `json:"nontrivial,omitempty"`
 	Config     string  `json:"config,omitempty"`
+	Paths      int     `json:"extra_paths,omitempty"`
+}
+
+func baseObKey(k string) string {
+	if i := strings.LastIndex(k, " #"); i > 0 {
+		tail := k[i+2:]
+		allDigits := tail != ""
+		for _, c := range tail {
+			if c < '0' || c > '9' {
+				allDigits = false
+			}
+		}
+		if allDigits {
+			return k[:i]
+		}
+	}
+	return k
 }
 
 // Rule is one structural rule serving one property.
@@ -90,6 +107,14 @@ func (r *Rep) add(v Verdict, key string, pos token.Pos, nontrivial bool, format 
 	full := r.rule.ID + "|" + key
 	if r.seen == nil {
 		r.seen = map[string]int{}
+	}
+	// the same obligation decided the same way on several paths is one obligation
+	detail := fmt.Sprintf(format, args...)
+	for _, o := range r.Obs {
+		if baseObKey(o.Key) == full && o.Verdict == v && o.Detail == detail {
+			o.Paths++
+			return o
+		}
 	}
 	r.seen[full]++
 	if n := r.seen[full]; n > 1 {
